@@ -42,7 +42,7 @@ PROPS = {
         reference="the Coq model of the documented semantics (coq/Eval.v), validated operator by operator"),
     "C02": P("P_C02.v", ["C02"], T_EVAL,
         "decimal/hex/octal/binary integer literals of every canonical digit list parse to exactly the value they denote up to the int64/uint64 bounds and are range errors beyond (proved over digit lists, integers are Z); equality in the model compares in the value's own class; the float parser reads the literal as an exact rational and rounds it once, and that rounding is proved to be round-to-nearest, ties to even, onto the floats of the width (round_rat_canonical, round_rat_nearest, round_rat_ties_to_even: every positive rational, every precision and exponent range; the overflow/underflow shortcuts of the model are proved to select what the rounding itself gives; number_literal_nearest: for every number literal of the grammar ([-]digits[.digits]) the bits returned are those of a nearest float of the width to the number the characters denote, from the characters to the bits; sci_literal_nearest, hex_literal_nearest: the same for literals with an exponent and for hexadecimal float literals)",
-        [MODEL_NOTE, "nearest-float-ness is proved for the rounding step over integers (floats as pairs m * 2^e, distances cross-multiplied); that the characters of the literal denote the rational handed to it is proved for every number literal the grammar can spell ([-]digits[.digits]) and for literals with an exponent and for hexadecimal float literals, and validated for underscores, a leading + and upper-case hexadecimal digits (quoted literals only); that strconv.ParseFloat computes the same float is the correspondence (C02 matrix incl. the double-rounding and midpoint witnesses); no reference to Flocq's definition of IEEE-754 rounding"],
+        [MODEL_NOTE, "nearest-float-ness is proved for the rounding step over integers (floats as pairs m * 2^e, distances cross-multiplied); that the characters of the literal denote the rational handed to it is proved for every number literal the grammar can spell ([-]digits[.digits]) and for literals with an exponent and for hexadecimal float literals, a leading + is proved neutral (plus_sign_neutral); validated only: underscores and upper-case hexadecimal digits (quoted literals only); that strconv.ParseFloat computes the same float is the correspondence (C02 matrix incl. the double-rounding and midpoint witnesses); no reference to Flocq's definition of IEEE-754 rounding"],
         reference="literals rendered from a chosen value: == must be true iff the values are equal"),
     "C03": P("P_C03.v", ["C03"], T_EVAL,
         "and/or/not equations over arbitrary leaf semantics: the composite outcome is a function of the operands' outcomes, left to right, with short-circuit; double negation, unreached errors, De Morgan",
